@@ -235,7 +235,7 @@ func TestVF_C17(t *testing.T) {
 				vfTunnelCase(c, dir, vfTunnelPlan{When: "racing", Connector: "ok", Attackers: []string{"twin-right-greeting"}})
 			}})
 		}
-		for _, conn := range []string{"nil", "dead", "late-500", "late-900", "late-1100", "late-3000", "split", "split", "answer-late"} {
+		for _, conn := range []string{"nil", "dead", "late-500", "late-900", "late-1100", "late-3000", "split", "split", "answer-late", "foreign-banner", "foreign-echo", "foreign-wrong-id"} {
 			for rep := 0; rep < vfPick(2, 10); rep++ {
 				dir, conn, rep := dir, conn, rep
 				cases = append(cases, vfCase{ID: fmt.Sprintf("%sconn-%s-%s-%d", ytag, dir, conn, rep), Run: func(c *vfCtx) {
@@ -393,6 +393,43 @@ func vfTunnelCase(c *vfCtx, dir string, plan vfTunnelPlan) {
 				return nil
 			}
 			return &vfSplitConn{Conn: conn}
+		case "foreign-banner", "foreign-echo", "foreign-wrong-id":
+			// the connector lands on something that is not the server of this transfer: whatever it answers, the
+			// client must not take it for the tunnel (it goes on in-band)
+			l, err := net.Listen("tcp", "127.0.0.1:0")
+			if err != nil {
+				return nil
+			}
+			kind := plan.Connector
+			go func() {
+				defer l.Close()
+				conn, err := l.Accept()
+				if err != nil {
+					return
+				}
+				defer conn.Close()
+				buf := make([]byte, 4096)
+				n, _ := conn.Read(buf)
+				switch kind {
+				case "foreign-banner":
+					conn.Write([]byte("SSH-2.0-OpenSSH_9.2p1\r\n"))
+				case "foreign-echo":
+					conn.Write(buf[:n])
+				default:
+					conn.Write([]byte("::TRZSZ::SERVER::HELLO::00000000000:1"))
+				}
+				conn.SetReadDeadline(time.Now().Add(8 * time.Second))
+				for {
+					if _, err := conn.Read(buf); err != nil {
+						return
+					}
+				}
+			}()
+			conn, err := net.DialTimeout("tcp", l.Addr().String(), time.Second)
+			if err != nil {
+				return nil
+			}
+			return &vfTapConn{conn, s.tunOut, s.tunIn}
 		case "answer-late":
 			// the greeting goes out at once and the server adopts the connection, but its answer reaches the client
 			// after the grace period: the client goes on in-band, and so must the server
@@ -651,7 +688,7 @@ func vfTunnelCase(c *vfCtx, dir string, plan vfTunnelPlan) {
 			// property allows; under 40 simultaneous probing connections and load it happens: recorded
 			c.Obs("fallback_despite_timely_connector", 1)
 		}
-	case "nil", "dead", "late-3000", "answer-late":
+	case "nil", "dead", "late-3000", "answer-late", "foreign-banner", "foreign-echo", "foreign-wrong-id":
 		if tunnelUsed {
 			c.Viol("c17-tunnel-used-unexpectedly", "plan %+v: no tunnel could be established in time, yet the server says the tunnel is connected", plan)
 			return
